@@ -116,6 +116,7 @@ var undecidedClauses = map[string][]string{
 	"C04": {"HMAC collision freedom", "concurrent submissions (reduced to the filter's mutex, C11)"},
 	"C05": {"AEAD security of secretbox (assumption)"},
 	"C06": {"the primitives themselves (x/crypto, siphash, crypto/hmac are trusted to be what their names say); no second implementation is in the loop", "Elligator 2 (C07)"},
+	"C07": {"decode(encode(u)) = u and Diffie-Hellman agreement with clean X25519 (field/curve algebra is uninterpreted)", "equality of the decoder with an independently computed Elligator 2 map", "coverage of all eight cosets by generated public keys (distributional)", "that the selected root is below 2^254 (so that the tweak bits do not collide with representative bits)"},
 	"C08": {"X25519 on low-order / non-canonical points (trusted x/crypto)", "HMAC collision resistance behind 'changes both outputs'"},
 	"C09": {"actual inter-arrival times (sleeps are no-ops in the model)", "equality of client and server tables needs both processes to run with the same -obfs4-distBias flag (configuration assumption)"},
 	"C10": {"memory held inside dependencies (bufio, http.Transport), goroutine liveness, stack depth", "network-facing functions not listed under functions_under_contract in this evidence are not covered yet"},
